@@ -39,7 +39,10 @@ Inductive cstep :=
 | STable (pre : sdoc) (tidx : nat) (eid_created eid_final : Z) (impl : outcome sdoc) (found : option (nat * nat))
 | SPageBreak (pre : store) (n_pb : sname) (existing_ok : option bool) (eid_new : Z) (impl : outcome store)
              (found : option (nat * nat))
-| SReload (pre post : store) (lookups : list (Z * option sname * option (nat * nat) * option (nat * nat))).
+| SReload (pre post : store) (lookups : list (Z * option sname * option (nat * nat) * option (nat * nat)))
+(* promises kept: every name an operation returned earlier (and that no later operation redefined on purpose) must
+   still find the style with that content: (family, name, content id, what Document.get_style returns now) *)
+| SFound (st : store) (promises : list (Z * sname * Z * option (nat * nat))).
 
 (* 1 wrong container | 2 uniqueness lost | 3 not found again | 4 something else changed / lost | 5 generated name
    collides | 6 other document changed by merge | 7 merge is not the union with the other winning | 8 reload differs
@@ -91,6 +94,20 @@ Definition chk0 (c : cstep) : nat :=
                                         || mem_entry e (slot_list self_post k))
                               (slot_list self_pre k)) (seq 0 8)) then 7%nat
       else if uniq T self_pre && uniq T other_pre && negb (uniq T self_post) then 2%nat
+      else if crossb T self_pre && crossb T other_pre && negb (crossb T self_post) then 2%nat
+      (* the other document wins: in its part, the lookup of each named style of the other document returns that definition *)
+      else if negb (forallb (fun p => let '(sl, e) := p in
+                      match entry_family T e, ename e with
+                      | Some f, Some n =>
+                        match zassoc f (family_tag T) with
+                        | None => true
+                        | Some _ => match part_get_style T self_post (slot_in_styles_part sl) f (Some n) with
+                                    | Ok (Some loc) => match entry_at self_post loc with Some x => eid x =? eid e | None => false end
+                                    | _ => false
+                                    end
+                        end
+                      | _, _ => true
+                      end) (all_styles T other_pre)) then 7%nat
       else match merge_styles_from T false self_pre other_pre with
            | Done (m1, m2) => if store_eqb m1 self_post && store_eqb m2 other_post then 0%nat else 9%nat
            | _ => 9%nat
@@ -151,6 +168,17 @@ Definition chk0 (c : cstep) : nat :=
     else if forallb (fun q => let '(f, n, before, after) := q in
                               match doc_get_style T post f n with Ok r => opt_eqb loc_eqb r after | Err => false end) lookups
          then 0%nat else 9%nat
+  | SFound st promises =>
+    if negb (forallb (fun q => let '(f, n, id, found) := q in
+                        match found with
+                        | Some loc => match entry_at st loc with
+                                      | Some e => (eid e =? id) && opt_eqb sname_eqb (ename e) (Some n)
+                                      | None => false end
+                        | None => false
+                        end) promises) then 3%nat
+    else if forallb (fun q => let '(f, n, id, found) := q in
+                       match doc_get_style T st f (Some n) with Ok r => opt_eqb loc_eqb r found | Err => false end) promises
+         then 0%nat else 9%nat
   end.
 
 (* are the hypotheses of the theorems (Inv2, mergeable) met by the implementation's pre-state, and is Inv2 still there
@@ -165,6 +193,7 @@ Definition pre_post (c : cstep) : bool * option store :=
   | STable pre _ _ _ impl _ => (inv2b T (sstore pre), match impl with Done post => Some (sstore post) | _ => None end)
   | SPageBreak pre _ _ _ impl _ => (inv2b T pre, match impl with Done post => Some post | _ => None end)
   | SReload pre post _ => (inv2b T pre, Some post)
+  | SFound st _ => (true, None)
   end.
 Definition chk (c : cstep) : nat :=
   match chk0 c with
